@@ -110,6 +110,11 @@ def run(ck: Check):
                                          f"(P={P!r}, S={S!r})",
                                          {"strategy": strategy, "atom": atom, "file0": data.hex(), "verdicts": v, "write_fault": k,
                                           "final": run_.final.hex()})
+    # what stands in front of the DDBEGIN line (nothing, a byte-order mark, bytes that are not UTF-8) x one terminator
+    # style used throughout the file x all five splitters x all strategies
+    from universe import marker_matrix
+    marker_matrix(lambda strategy, cfg, tc, **kw: ex.dfs(strategy, cfg, tc, replay=strategy not in CONCRETE, cap=150, **kw), quick,
+                  others=STRATS[1:])
     from scale import big_frame_and_subdeletion
     big_frame_and_subdeletion(ck, frame=True, sub=False)
     ex.diff()
